@@ -118,11 +118,11 @@ class Cluster:
         st = self.job["st"]
         t = ts(self.job.get("since", 0))
         status = {}
-        if st in ("active", "complete", "failed", "other", "otherok"):
+        if st in ("active", "idle", "complete", "failed", "other", "otherok"):
             status["startTime"] = ts(0)
         if st == "active":
             status["active"] = 1
-        if st == "new0":
+        if st == "idle":
             status["active"] = 0
         if st == "complete":
             status.update(succeeded=1, completionTime=t, conditions=[{"type": "Complete", "status": "True", "lastTransitionTime": t, "lastProbeTime": t}])
@@ -232,12 +232,14 @@ class Cluster:
         sc = self.script
         name = self.name_of(method, path)
         try:
-            if self.n >= sc.fail_from:
+            blip = (sc.kind or "").startswith("blip")
+            if (self.n == sc.fail_from) if blip else (self.n >= sc.fail_from):
                 self.calls.append(name + "!")
                 self.all_calls.append(name + "!")
-                if sc.kind == "conn":
+                kind = sc.kind[4:] if blip else sc.kind
+                if kind == "conn":
                     raise urllib3.exceptions.MaxRetryError(None, url, reason="connection refused (scripted)")
-                return failure({"e503": 503, "e504": 504, "e500": 500, "e403": 403, "e409": 409}[sc.kind])
+                return failure({"e503": 503, "503": 503, "e504": 504, "504": 504, "e500": 500, "e403": 403, "e409": 409}[kind])
             name, resp = self.handle(method, path, json.loads(body) if body else None)
             self.calls.append(name)
             self.all_calls.append(name)
@@ -338,6 +340,8 @@ class Installed:
         self._set(k8s, "random", _Random())
         self._set(k8s, "ImageRegistry", {})
         self._set(experiment.appenv.KubernetesConfiguration, "defaultConf", None)
+        import pprint
+        self._set(pprint, "pformat", lambda *a, **k: "")       # only used for log messages (two thirds of the construction time)
         Installed.current = self
         return self
 
@@ -428,9 +432,10 @@ class Driver:
             else:
                 real = k8s.NativeScheduledTask
 
-                def no_cache(*a, **k):
-                    return real(*a, cacheImage=False, **k)
-                k8s.NativeScheduledTask = no_cache
+                class NoCache(real):           # the generator has no parameter for cacheImage
+                    def __init__(this, *a, **k):
+                        real.__init__(this, *a, cacheImage=False, **k)
+                k8s.NativeScheduledTask = NoCache
                 try:
                     self.task = bb.KubernetesTaskGenerator(cmd, resourceManager=rm, outputFile=os.path.join(self.d, "out.txt"), label="comp#0",
                                                             resourceRequest={"numberProcesses": 1, "numberThreads": 1, "threadsPerCore": 1, "memory": None},
